@@ -157,8 +157,18 @@ pub fn generate(seed: u64) -> Vec<Ev> {
                             sub.extend(staged[ti].sql());
                         }
                         4 => {
+                            if !staged[ti].indexes.is_empty() && r.chance(0.6) {
+                                // same name, other definition
+                                let t = &mut staged[ti];
+                                let other = t.cols.last().map(|c| c.name.clone()).unwrap_or("id".into());
+                                let k = r.usize_below(t.indexes.len());
+                                let cur = t.indexes[k].1.clone();
+                                t.indexes[k].1 = if cur.contains(',') { other } else { format!("{cur}, {}", t.pk[0].0) };
+                                intent.push("change-index");
+                            } else {
+                                intent.push("resubmit-identical");
+                            }
                             sub.extend(staged[ti].sql());
-                            intent.push("resubmit-identical");
                         }
                         // ---- forbidden edits (staged is NOT updated: if accepted, the oracle shows what changed)
                         5 => {
@@ -314,7 +324,7 @@ async fn snapshot(n: &Node) -> R<Snapshot> {
             .map(|(name, t)| {
                 let mut cols: Vec<String> = t.columns.iter().map(|(c, col)| format!("{c}:{}:{}:{:?}:{}", col.sql_type.1.clone().unwrap_or_default(), col.nullable, col.default_value, col.primary_key)).collect();
                 cols.sort();
-                let mut idx: Vec<String> = t.indexes.keys().map(|k| format!("index:{k}")).collect();
+                let mut idx: Vec<String> = t.indexes.iter().map(|(k, ix)| format!("index:{k}:{:?}:{:?}", ix.columns, ix.where_clause)).collect();
                 idx.sort();
                 cols.extend(idx);
                 (name.clone(), cols)
@@ -333,7 +343,7 @@ fn schema_from_db(n: &Node, conn: &rusqlite::Connection) -> R<BTreeMap<String, V
         .map(|(name, t)| {
             let mut cols: Vec<String> = t.columns.iter().map(|(c, col)| format!("{c}:{}:{}:{:?}:{}", col.sql_type.1.clone().unwrap_or_default(), col.nullable, col.default_value, col.primary_key)).collect();
             cols.sort();
-            let mut idx: Vec<String> = t.indexes.keys().map(|k| format!("index:{k}")).collect();
+            let mut idx: Vec<String> = t.indexes.iter().map(|(k, ix)| format!("index:{k}:{:?}:{:?}", ix.columns, ix.where_clause)).collect();
             idx.sort();
             cols.extend(idx);
             (name.clone(), cols)
